@@ -358,3 +358,4 @@ def _through_callers(ix: Index, ty, helper: FuncInfo, key, value, gtext):
   if found:
     return ("sound", f"memo filled through {helper.short}; every caller's key covers the value's dependences")
   return ("not-memo", "")
+
